@@ -17,6 +17,7 @@ type decision struct {
 	pending []int    // feasible alternatives not yet explored
 	vals    []uint64 // for value decisions: concrete value per alternative
 	forked  bool     // more than one feasible alternative
+	tid     string
 	free    bool
 }
 
@@ -96,6 +97,7 @@ type Machine struct {
 	stubsUsed  map[string]int
 	findings   map[string]bool
 	bugs       int
+	cuts       int
 	collisionOnly int
 	nGlobals   int
 	bigFree    map[int][][]value
@@ -207,6 +209,16 @@ func (m *Machine) decideN(what string, conds []*Term, vals []uint64) int {
 		d := m.stack[k]
 		if d.n != len(conds) && vals == nil {
 			m.incon = append(m.incon, "non-deterministic replay at "+what)
+			if os.Getenv("GOSYM_DEBUG") != "" {
+				var rec, cur []string
+				for i := maxInt(0, k-8); i <= k && i < len(m.stack); i++ {
+					rec = append(rec, fmt.Sprintf("%s/%d@%s", m.stack[i].what, m.stack[i].chosen, m.stack[i].tid))
+				}
+				for i := maxInt(0, k-8); i < len(m.trace); i++ {
+					cur = append(cur, fmt.Sprintf("%s/%d", m.trace[i].what, m.trace[i].chosen))
+				}
+				fmt.Fprintf(os.Stderr, "NONDET at %d: recorded %v\n   current %v + %s@%s\n", k, rec, cur, what, m.cur.name)
+			}
 			m.abort("non-deterministic replay at decision %d (%s): %d vs %d alternatives", k, what, d.n, len(conds))
 		}
 		m.trace = append(m.trace, d)
@@ -241,7 +253,7 @@ func (m *Machine) decideN(what string, conds []*Term, vals []uint64) int {
 	if len(feas) == 0 {
 		m.abort("no feasible alternative at %s (path condition unsat?)", what)
 	}
-	d := decision{what: what, n: len(conds), chosen: feas[0], pending: feas[1:], vals: vals, forked: len(feas) > 1}
+	d := decision{what: what, n: len(conds), chosen: feas[0], pending: feas[1:], vals: vals, forked: len(feas) > 1, tid: m.cur.name}
 	m.trace = append(m.trace, d)
 	if d.forked {
 		m.noteFork(&d)
@@ -335,7 +347,7 @@ func (m *Machine) concretize(what string, t *Term, limit int) uint64 {
 	for i := 1; i < len(vals); i++ {
 		pend = append(pend, i)
 	}
-	d := decision{what: what, n: len(vals), chosen: 0, pending: pend, vals: vals, forked: len(vals) > 1}
+	d := decision{what: what, n: len(vals), chosen: 0, pending: pend, vals: vals, forked: len(vals) > 1, tid: m.cur.name}
 	m.trace = append(m.trace, d)
 	if d.forked {
 		m.noteFork(&d)
@@ -685,8 +697,8 @@ func (m *Machine) visitInstr(fr *frame, instr ssa.Instruction) continuation {
 	case *ssa.MakeSlice:
 		capT := fr.get(instr.Cap).(*Term)
 		lenT := fr.get(instr.Len).(*Term)
-		c := int(m.concretize("makeslice.cap", capT, 64))
-		l := int(m.concretize("makeslice.len", lenT, 64))
+		c := int(m.concretizeOrCut("makeslice.cap", capT, 64))
+		l := int(m.concretizeOrCut("makeslice.len", lenT, 64))
 		if l < 0 || c < l || c > 1<<28 {
 			m.goPanic("makeslice: len out of range")
 		}
@@ -936,4 +948,22 @@ func (m *Machine) recycleBig() {
 		}
 	}
 	m.bigUsed = m.bigUsed[:0]
+}
+
+// concretizeOrCut is concretize, except that a term with more than limit
+// feasible values ends the path as *cut* (outside the stated bounds: reported
+// in the result, not inconclusive). Used for allocation sizes read from input.
+func (m *Machine) concretizeOrCut(what string, t *Term, limit int) uint64 {
+	n := len(m.incon)
+	defer func() {
+		if r := recover(); r != nil {
+			if pa, ok := r.(pathAbort); ok && strings.HasPrefix(pa.reason, "too many values") {
+				m.incon = m.incon[:n]
+				m.cuts++
+				panic(pathAbort{"cut: more than " + fmt.Sprint(limit) + " feasible sizes at " + what + " (allocation size taken from input; outside the bound)"})
+			}
+			panic(r)
+		}
+	}()
+	return m.concretize(what, t, limit)
 }
